@@ -2,6 +2,8 @@
 //! implementation in /repo.  `vh replay <kind>`: spec -> impl; `vh record <kind>`: impl -> spec.
 #![allow(dead_code)]
 mod common;
+mod conc_replay;
+mod gates;
 mod constraints_replay;
 mod doubles;
 mod drv;
@@ -27,6 +29,8 @@ fn main() {
         ("replay", "store") => store_replay::main(&opts),
         ("replay", "track") => track_replay::main(&opts),
         ("replay", "tracker") => tracker_replay::main(&opts),
+        ("replay", "conc") => conc_replay::main(&opts),
+        ("record", "conc") => conc_replay::record(&opts),
         ("replay", "geom") => geom_replay::main(&opts),
         ("replay", "nms") => nms_replay::main(&opts),
         ("replay", "feature") => feature_replay::main(&opts),
